@@ -3,6 +3,7 @@
 set -u
 S=$1; shift
 cd /verif
+export AGV_EVIDENCE_DIR=/verif/build/seed-evidence   # never overwrite the committed evidence with a run against a seeded tree
 git -C /repo apply /verif/seeded/$S/patch.diff || { echo "patch does not apply"; exit 2; }
 for p in "$@"; do
   out=$(bin/agv check $p --tier quick 2>/dev/null | grep -E "^VIOLATION" | head -1)
